@@ -278,6 +278,11 @@ def postCheck (v : Val) (check : String) : Bool :=
   match check, v with
   | "len2", .nums l => l.length == 2
   | "positive", .int i => i > 0
+  | c, .str s =>
+    -- "oneof:a|b|…": the value is one of the listed names (`X is not None and X not in [...]`)
+    match c.splitOn ":" with
+    | ["oneof", names] => (names.splitOn "|").contains s
+    | _ => true
   | _, _ => true
 
 def postChecks (T : Tables) (c : Cfg) : Bool :=
